@@ -17,6 +17,11 @@ type DL1 struct{ at.List }
 type DL2 struct{ *DL1 }
 type DL3 struct{ *DL2 }
 
+// Derived types that are declared, registered and stored BY VALUE (the struct itself, not a pointer to it,
+// implements the interface through the embedded one).
+type DLV struct{ at.List }
+type DOV struct{ at.Object }
+
 // Derived object types.
 type DO1 struct{ at.Object }
 type DO2 struct{ *DO1 }
@@ -132,6 +137,8 @@ type C19Case struct {
 	InitEveryLevel bool `json:"initeverylevel"`
 	// Size: number of elements / fields the derived value starts with (0 = the default of 3 / 2)
 	Size int `json:"size,omitempty"`
+	// ByValue: the derived type is a struct value (not a pointer) embedding the interface; depth is 1 then
+	ByValue bool `json:"byvalue,omitempty"`
 }
 
 // derivingMethods return a new container or an element, not the receiver.
@@ -169,6 +176,7 @@ const c19StoreWays = 17
 
 func GenC19(t *rapid.T) *C19Case {
 	c := &C19Case{Depth: drawInt(t, 1, 3, "depth"), IsObject: drawBool(t, "isobject"), Store: drawIdx(t, c19StoreWays, "store"), InitEveryLevel: drawBool(t, "initeach")}
+	c.ByValue = oneIn(t, 6, "byvalue")
 	if oneIn(t, 6, "big") {
 		c.Size = []int{64, 65, 100, 200, 1025}[drawIdx(t, 5, "size")] // beyond any batch / worker limit of the async variants
 	}
@@ -700,9 +708,20 @@ func CheckC19(c *C19Case, st *Stats) error {
 	if c.Size > 0 {
 		st.Count("big_derived_value")
 	}
-	if c.IsObject {
+	switch {
+	case c.ByValue && c.IsObject:
+		v := DOV{Object: at.NewObject(objInit...)}
+		v.Init(v)
+		d, depth = v, 1
+		st.Count("derived_by_value")
+	case c.ByValue:
+		v := DLV{List: at.NewList(listInit...)}
+		v.Init(v)
+		d, depth = v, 1
+		st.Count("derived_by_value")
+	case c.IsObject:
 		d = newDerivedObject(depth, c.InitEveryLevel, objInit...)
-	} else {
+	default:
 		d = newDerivedList(depth, c.InitEveryLevel, listInit...)
 	}
 	if c.InitEveryLevel {
@@ -814,6 +833,6 @@ func CheckC19(c *C19Case, st *Stats) error {
 
 func init() {
 	Register("C19",
-		"user types embedding List / Object one, two and three levels deep, registered with Init either at every constructor level (the README pattern) or only by the outermost value. The fluent set is computed from the interface types by reflection (methods whose single result is the interface, minus the deriving operations; methods unknown to the harness are reported as unclassified): 19 on List, 14 on Object. Programs of 1-20 fluent calls with arguments valid for the current content cover every branch (Add with 0/1/2 values, Insert inside/at the end, Delete with 0/1/2 indices, Sort on ints/strings/floats, SetTF leaf replace/append/padding/./#/deep, UnsetTF leaf/nested, Set 0/1/2 pairs, Unset present/missing/none, all ForEach variants incl. ForEachAsync); every call must return the identical registered outer value and Ego() too. One case in six starts with 64-1025 elements / fields (beyond any batch or worker limit of the async variants). Then the derived value is stored through one of 17 entry points (once already registered, once registering itself only after it was stored) (constructors incl. typed slices/maps, Add, Insert, Replace, Set, tree-form writes) and read back through Get, GetList/GetObject, GetTF, Slice, Dict, Values, Pluck, SubList, Concat, Filter*, typed slices, every ForEach/Map callback, IndexOf/Contains/KeyOf: always the identical outer value. Every case is non-trivial (a derived value is exercised); distinct = distinct FNV-64a hash of the case JSON.",
+		"user types embedding List / Object one, two and three levels deep (pointer types; in one case of six a struct type used by value), registered with Init either at every constructor level (the README pattern) or only by the outermost value. The fluent set is computed from the interface types by reflection (methods whose single result is the interface, minus the deriving operations; methods unknown to the harness are reported as unclassified): 19 on List, 14 on Object. Programs of 1-20 fluent calls with arguments valid for the current content cover every branch (Add with 0/1/2 values, Insert inside/at the end, Delete with 0/1/2 indices, Sort on ints/strings/floats, SetTF leaf replace/append/padding/./#/deep, UnsetTF leaf/nested, Set 0/1/2 pairs, Unset present/missing/none, all ForEach variants incl. ForEachAsync); every call must return the identical registered outer value and Ego() too. One case in six starts with 64-1025 elements / fields (beyond any batch or worker limit of the async variants). Then the derived value is stored through one of 17 entry points (once already registered, once registering itself only after it was stored) (constructors incl. typed slices/maps, Add, Insert, Replace, Set, tree-form writes) and read back through Get, GetList/GetObject, GetTF, Slice, Dict, Values, Pluck, SubList, Concat, Filter*, typed slices, every ForEach/Map callback, IndexOf/Contains/KeyOf: always the identical outer value. Every case is non-trivial (a derived value is exercised); distinct = distinct FNV-64a hash of the case JSON.",
 		GenC19, CheckC19)
 }
